@@ -45,13 +45,14 @@ Definition x32 : xops spec_float :=
 Definition b32 (z : Z) : spec_float := b32_of_bits z.
 
 Inductive initspec (T : Type) :=
-| InitGiven (inits : list (list (list T)))    (* Precomputed, or Random with replayed index samples *)
+| InitGiven (inits : list (list (list T)))    (* Precomputed: the initial centroids are an input *)
+| InitRandom (inits : list (list (list T)))   (* Random: rows selected by index samples the harness replayed *)
 | InitPlusPlus (runs : N) (words : list N)    (* KMeansPlusPlus: the generator's raw next_u64 words *)
 | InitPara1 (runs : N) (words : list N)       (* KMeansPara fitted inside a one-thread rayon pool: the
                                                  parameter generator's raw next_u64 words *)
 | InitHidden.                                 (* KMeansPara in a multi-thread pool: the task split is
                                                  not a function of the input, property oracle only *)
-Arguments InitGiven {T}. Arguments InitPlusPlus {T}. Arguments InitPara1 {T}. Arguments InitHidden {T}.
+Arguments InitGiven {T}. Arguments InitRandom {T}. Arguments InitPlusPlus {T}. Arguments InitPara1 {T}. Arguments InitHidden {T}.
 
 Record fitcase (T : Type) := {
   fc_fuel : N;                       (* max_n_iterations *)
@@ -102,6 +103,7 @@ Definition rows_eqb (a b : list (list T)) : bool := list_eqb (list_eqb (x_eq x))
 Definition inits_of (m : metric) (X : list (list T)) (fc : fitcase T) : option (list (list (list T))) :=
   match fc_init fc with
   | InitGiven l => Some l
+  | InitRandom l => Some l
   | InitPlusPlus runs words =>
       Some (plusplus_inits o (x_fmt x) m X (N.to_nat (fc_k fc)) (N.to_nat runs) words)
   | InitPara1 runs words =>
@@ -140,14 +142,16 @@ Definition opt_eqb (a b : option (N * N)) : bool :=
    [fit_whole] (equal to [fit] by C09/Properties.v fit_whole_is_fit).  Oracle 2048: the returned
    centroids must be the result of at least one and at most max_n_iterations m_k-means steps from the
    initialisation of one of the restarts (Properties.v fit_run_uses_own_budget,
-   fit_returns_iterate_within_budget) - judged on the implementation's output alone. *)
+   fit_returns_iterate_within_budget) - judged on the implementation's output alone, and only where
+   the initial centroids are an input of the fit (Precomputed); where the model derives them from
+   replayed random draws the same comparison is part of the correspondence (bit 32) only. *)
 Definition fit_codes (m : metric) (X : list (list T)) (fc : fitcase T) : N * N :=
   match inits_of m X fc with
   | None => (0%N, 0%N)
   | Some inits =>
       let its_all := map (fun i => iterates o (N.to_nat (fc_fuel fc)) m i X) inits in
       let seen := find_restart (fc_centroids fc) its_all 0 in
-      let orc := flag (match seen with Some _ => true | None => false end) 2048 in
+      let orc := match fc_init fc, seen with InitGiven _, None => 2048%N | _, _ => 0%N end in
       match fst (fit_whole o m (fc_tol fc) (fc_fuel fc) (N.to_nat (fc_k fc)) inits X) with
       | None => (1%N, orc)
       | Some f =>
